@@ -133,8 +133,10 @@ fn points(n: usize) -> Vec<Vec<Fe>> {
 }
 /// variables occurring in the library's own printed form of an expression
 fn occurring(e: &Ex<Fe>, t: &Table) -> Option<Vec<String>> {
+    // (only listed variables count: a printed `inf` or `NaN` is a number, not a name)
+    let listed = e.var_names();
     match spec::read(&e.text(), t, LitKind::Number) {
-        SpecResult::Ok(tr) => Some(tr.vars()),
+        SpecResult::Ok(tr) => Some(tr.vars().into_iter().filter(|v| listed.contains(v)).collect()),
         _ => None,
     }
 }
